@@ -123,6 +123,16 @@ ChainA(L) == [k \in 1..L |-> [l \in 1..L |->
                 ELSE IF l = 2 THEN (IF k = 1 THEN 1 ELSE IF k = 2 THEN -1 ELSE 0)
                 ELSE IF l = L THEN (IF k = L THEN 1 ELSE 0)
                 ELSE (IF k = l THEN 1 ELSE IF k = l + 1 THEN -1 ELSE 0)]]
+\* a fixed "path numbered out of order" change of basis for L >= 4: new_1 = c_1, new_2 = c_1 + c_2, new_4 = c_2 + c_3,
+\* new_3 = c_3 + c_4, new_j = c_j (j > 4); determinant -1.  On loops that are decoupled in the tree basis (chains of bubbles) the
+\* new loops overlap along the path 1 - 2 - 4 - 3: L_12, L_24, L_34 are the only non-zero off-diagonal entries, the Cholesky
+\* factor has no fill-in, and N^2 = (N_42 N_21) e_4 e_1^T lies entirely below its second sub-diagonal.
+PathA(L) == [k \in 1..L |-> [l \in 1..L |->
+                IF l = 1 THEN (IF k = 1 THEN 1 ELSE 0)
+                ELSE IF l = 2 THEN (IF k \in {1, 2} THEN 1 ELSE 0)
+                ELSE IF l = 3 THEN (IF k \in {3, 4} THEN 1 ELSE 0)
+                ELSE IF l = 4 THEN (IF k \in {2, 3} THEN 1 ELSE 0)
+                ELSE (IF k = l THEN 1 ELSE 0)]]
 \* the routings are drawn into the state as well
 Route ==
    /\ st.k = "g"
@@ -132,7 +142,7 @@ Route ==
                       [T |-> IF r = 1 THEN CHOOSE T \in Trees(g) : TRUE ELSE RandomElement(Trees(g)),
                        A |-> IF r = 1 THEN [i \in 1..L |-> [j \in 1..L |-> IF i = j THEN 1 ELSE 0]]
                              ELSE IF r = NROUT /\ L >= 3 THEN ChainA(L)
-                             ELSE IF L > 3 THEN [i \in 1..L |-> [j \in 1..L |-> IF i = j THEN 1 ELSE 0]]
+                             ELSE IF L > 3 THEN PathA(L)
                              ELSE RandomElement(GL(L)),
                        R |-> IF r = 1 THEN {} ELSE RandomElement(SUBSET Full(g)),
                        c |-> [l \in 1..L |-> [i \in 1..dd |-> IF r = 1 THEN 0 ELSE RandomElement(-1..1)]]]]]
